@@ -43,6 +43,11 @@ class EnvironmentDown(lcc.AbortAllTests):
     pass
 
 
+class ProjectPanic(BaseException):
+    """a project's own exception type that is not an `Exception`"""
+
+
+_BASE_RAISES = {"SystemExit": SystemExit, "GeneratorExit": GeneratorExit, "CustomBase": ProjectPanic}
 _SUB_RAISES = {"AbortTest": TestGivesUp, "AbortSuite": SuiteUnusable, "AbortAllTests": EnvironmentDown}
 
 
@@ -116,6 +121,8 @@ class Interp:
         if a == "raise":
             self.user(unit, "raise:" + act["kind"], None)
             exc = (_SUB_RAISES if act.get("sub") else _RAISES)[act["kind"]]("boom " + msg)
+            if act.get("base"):
+                exc = _BASE_RAISES[act["base"]]("boom " + msg)
             exc._lccverif_kind = act["kind"]
             raise exc
         if a == "gate":
